@@ -83,8 +83,10 @@ class _Subst(ast.NodeTransformer):
         self.skip = set(skip)
 
     def visit_Name(self, n):
-        if isinstance(n.ctx, ast.Load) and n.id in self.env and n.id not in self.dirty and n.id not in self.skip:
-            return copy.deepcopy(self.env[n.id])
+        if isinstance(n.ctx, ast.Load) and n.id in self.env and n.id not in self.skip:
+            # a local whose contents were changed is still the same object when it is a plain alias of a path
+            if n.id not in self.dirty or access_path(self.env[n.id]) is not None:
+                return copy.deepcopy(self.env[n.id])
         return n
 
     def visit_Lambda(self, n):
@@ -670,7 +672,14 @@ class Terms:
         if st.orelse:
             return
         for acc, init in list(pre_env.items()):
-            if not (isinstance(init, ast.List) and not init.elts) or acc in pre_dirty:
+            if acc in pre_dirty:
+                continue
+            is_dict = (isinstance(init, ast.Dict) and not init.keys) or (
+                isinstance(init, ast.Call) and isinstance(init.func, ast.Name) and init.func.id == "dict" and not init.args and not init.keywords)
+            if is_dict:
+                self._raise_dict(st, acc, pre_env, pre_dirty, env, dirty)
+                continue
+            if not (isinstance(init, ast.List) and not init.elts):
                 continue
             tnames = {n.id for n in ast.walk(st.target) if isinstance(n, ast.Name)}
             self._skip = tnames | set(pre_env)
@@ -692,6 +701,36 @@ class Terms:
                 env[acc] = comp
                 dirty.discard(acc)
                 self.raised.setdefault(id(st), {})[acc] = comp
+
+    def _raise_dict(self, st, acc, pre_env, pre_dirty, env, dirty):
+        """acc = {}; for ..: acc[K] = V (nothing else but temporaries) -> acc = {K: V for ..}"""
+        store = None
+        for s_ in st.body:
+            if isinstance(s_, ast.Assign) and all(isinstance(t, ast.Name) and t.id != acc for t in s_.targets):
+                continue
+            if isinstance(s_, ast.Assign) and len(s_.targets) == 1 and isinstance(s_.targets[0], ast.Subscript) \
+                    and isinstance(s_.targets[0].value, ast.Name) and s_.targets[0].value.id == acc and store is None:
+                store = s_
+                continue
+            return
+        if store is None:
+            return
+        cnt = sum(1 for s_ in st.body for n in ast.walk(s_) if isinstance(n, ast.Name) and n.id == acc)
+        if cnt != 1:
+            return
+        tnames = {n.id for n in ast.walk(st.target) if isinstance(n, ast.Name)}
+        body_env, body_dirty = self.before[id(store)]
+        keep = {k: v for k, v in body_env.items() if k not in tnames and k not in pre_env}
+        kx = self.expand(store.targets[0].slice, env=keep, dirty=body_dirty)
+        vx = self.expand(store.value, env=keep, dirty=body_dirty)
+        it = self.expand(st.iter, env=pre_env, dirty=pre_dirty)
+        comp = ast.DictComp(key=kx, value=vx, generators=[ast.comprehension(target=copy.deepcopy(st.target), iter=it, ifs=[], is_async=0)])
+        ast.copy_location(comp, st)
+        ast.fix_missing_locations(comp)
+        if _size(comp) <= MAX_TERM:
+            env[acc] = comp
+            dirty.discard(acc)
+            self.raised.setdefault(id(st), {})[acc] = comp
 
     def _builder_body(self, body, acc, nested=False):
         """([conditions], element expr, append stmt) if the body only computes temporaries and appends once"""
